@@ -95,6 +95,9 @@ def canon_real(v):
     import bitstring
     import bitarray
     import types
+    import io
+    if isinstance(v, io.BytesIO):
+        return ('BytesIO', v.getvalue())
     if isinstance(v, bitstring.Bits):
         n = type(v).__name__
         s = v._bitstore.slice_to_bin() if len(v) else ''
@@ -125,9 +128,7 @@ def canon_real(v):
         return ('gen', [canon_real(x) for x in v])
     if type(v) is object:
         return ('obj', 'object')
-    import io
-    if isinstance(v, io.BytesIO):
-        return ('BytesIO', v.getvalue())
+
     return v
 
 
